@@ -641,3 +641,18 @@ spec fn lex_le(a: Seq<int>, b: Seq<int>) -> bool
 //@|         r.0@ =~= rev_refs(chain@),
 //@|         r.1@ == tip_successors@,
 //@end
+
+// BlockTree::get_chain_with_tip as a whole (blocktree.rs:427): R9 annotates the closure handed to Option::map (its tuple pattern
+// becomes a `let`), so that the composition reverse-helper + closure is proved, not assumed
+impl<Block: ChainBlock> BlockTree<Block> {
+//@extract file=canister/src/blocktree.rs in="impl<Block: ChainBlock> BlockTree<Block>" item="fn get_chain_with_tip" props=C01,C06,C10
+//@ ret res
+//@ rewrite R9 "\.map\(\|\(mut chain, tip_successors\)\| \{" => ".map(|vp_p: (Vec<&'a Block>, Vec<&'a Block>)| -> (vp_r: (BlockChain<'a, Block>, Vec<&'a Block>)) requires vp_p.0@.len() >= 1, ensures vp_r.0@ =~= rev_refs(vp_p.0@), vp_r.1@ == vp_p.1@, { let (mut chain, tip_successors) = vp_p;"
+//@ spec
+//@| ensures
+//@|     res.is_some() <==> self.contains(*tip),
+//@|     res matches Some(p) ==> p.0@ =~= self.path_blocks(self.idx_path_to(*tip))
+//@|         && deref_seq(p.1@) =~= self.subtree_at(self.idx_path_to(*tip)).child_roots()
+//@|         && self.subtree_at(self.idx_path_to(*tip)).root.shash() == *tip,
+//@end
+}
